@@ -73,6 +73,10 @@ class TlcResult:
         m = re.findall(r'(\d+) states generated, (\d+) distinct states found', out)
         self.generated = int(m[-1][0]) if m else 0
         self.distinct = int(m[-1][1]) if m else 0
+        if not m:
+            m2 = re.findall(r'The number of states generated: (\d+)', out) or re.findall(r'Progress: (\d+) states checked', out)
+            if m2:
+                self.generated = self.distinct = int(m2[-1])
         self.violated = re.findall(r'Error: Invariant (\S+) is violated', out)
         self.errors = [l for l in out.splitlines() if l.startswith('Error:')]
         self.finished = 'Model checking completed' in out or 'Finished in' in out
